@@ -1,17 +1,30 @@
 #!/usr/bin/env python3
 """prints the markdown table of DESIGN.md 9.6 from /verif/seeded/*/meta.json"""
 import glob, json, os
+# seeds the checks missed when they were first run against them (before any strengthening); for some round-2 seeds the first
+# evaluation was contaminated by defects of the base tree that were found in the same hours, so the list is kept by hand
+MISSED_FIRST = {"C06-a-symbol-order", "C08-a-uniform-parens", "C13-a-exp-existence", "C14-a-init-value", "C15-a-name-collision", "C18-a-single-info-pass", "C20-a-value-hash",
+                "C01-b-and-implied", "C02-b-abstracted-vars", "C03-b-binary-range", "C04-b-valid-from", "C06-b-param-named-n", "C08-b-beta-mgf-scale", "C09-b-neq-guard-mark",
+                "C11-b-cornish-fisher-weights", "C12-b-weight-cache", "C13-b-reference-order", "C14-b-zero-multiplier", "C17-b-exact-flag", "C19-b-const-simult", "C20-b-shared-support"}
 rows = []
 for d in sorted(glob.glob("/verif/seeded/*/")):
     mp = d + "meta.json"
-    if not os.path.exists(mp): continue
-    m = json.load(open(mp)); ev = m.get("evaluation", {})
+    if not os.path.exists(mp):
+        continue
+    m = json.load(open(mp))
+    ev = m.get("evaluation", {})
     sid = os.path.basename(d.rstrip("/"))
     files = ", ".join(m.get("files_changed", []))
     need = (m.get("needs_to_manifest", "") or "").replace("\n", " ").replace("|", "\\|")
-    need = need[:230] + ("..." if len(need) > 230 else "")
-    caught = ", ".join(ev.get("caught_by", [])) or "-"
-    others = ", ".join(c for c, v in ev.get("checks_quick", {}).items() if v["rc"] != 1) or ""
-    rows.append(f"| {sid} | {m.get('property')} | `{files}` | {need} | {caught} | {others} |")
-print("| Seed | Property | File | Needs to manifest | Caught by (quick) | Run but silent |\n|---|---|---|---|---|---|")
+    need = need[:200] + ("..." if len(need) > 200 else "")
+    first = "missed" if sid in MISSED_FIRST else "caught"
+    if sid == "C11-b-cornish-fisher-weights":
+        first = "missed by quick (K <= 4), caught by thorough"
+    rc = ev.get("recheck", {})
+    now = ", ".join(rc.get("caught_by", [])) or "-"
+    if rc and not rc.get("still_violates", True):
+        now = "(neutralised: the demonstration passes with the change on the current HEAD)"
+    silent = ", ".join(c for c, v in (rc.get("checks") or {}).items() if v != 1) or ""
+    rows.append(f"| {sid} | `{files}` | {need} | {first} | {now} | {silent} |")
+print("| Seed | File | Needs to manifest | Caught at first run | Caught now (quick, current HEAD) | Run but silent |\n|---|---|---|---|---|---|")
 print("\n".join(rows))
